@@ -51,6 +51,52 @@ def value_bearing(tc):
     return holds
 
 
+def _chain_roots(e):
+    """variables an iterator chain draws from: the root of the receiver chain and of every `.chain(..)` / `.zip(..)` argument"""
+    out = set()
+    e = sir.strip_ref(e) if isinstance(e, dict) else e
+    r = sir.root_expr_name(e)
+    if r:
+        out.add(r)
+    cur = e
+    while isinstance(cur, dict) and cur.get("k") in ("mcall", "field", "index", "try", "unary", "ref"):
+        if cur.get("k") == "mcall" and cur["m"] in ("chain", "zip"):
+            for a in cur["args"]:
+                out |= _chain_roots(a)
+        cur = cur.get("recv") or cur.get("base") or cur.get("e")
+        cur = sir.strip_ref(cur) if isinstance(cur, dict) else cur
+    return out
+
+
+def _derive_aliases(body, aliases, rounds=4):
+    """names that hold (parts of) the values named in `aliases`: loop variables, if-let / match bindings, locals initialised from
+    them, and the parameters of closures handed to an iterator chain over them"""
+    aliases = set(aliases)
+    for _ in range(rounds):
+        before = len(aliases)
+        for n in sir.walk(body):
+            k = n.get("k")
+            if k == "for" and _chain_roots(n["e"]) & aliases:
+                aliases.update(nm for nm, _p in sir.pat_bindings(n["pat"]))
+            elif k in ("if", "while") and n["cond"].get("k") == "let" and _chain_roots(n["cond"]["e"]) & aliases:
+                aliases.update(nm for nm, _p in sir.pat_bindings(n["cond"]["pat"]))
+            elif k == "match" and _chain_roots(n["e"]) & aliases:
+                for a in n["arms"]:
+                    aliases.update(nm for nm, _p in sir.pat_bindings(a["pat"]))
+            elif k == "local" and n.get("init") is not None and _chain_roots(n["init"]) & aliases:
+                aliases.update(nm for nm, _p in sir.pat_bindings(n["pat"]))
+            elif k == "mcall" and any(isinstance(a, dict) and a.get("k") == "closure" for a in n["args"]) and _chain_roots(n["recv"]) & aliases:
+                for a in n["args"]:
+                    if a.get("k") == "closure":
+                        for p_ in a.get("params", []):
+                            pp = p_.get("pat", p_) if isinstance(p_, dict) else None
+                            if isinstance(pp, dict):
+                                aliases.update(nm for nm, _p in sir.pat_bindings(pp))
+        if len(aliases) == before:
+            break
+    return aliases
+
+
 def values_rule(ctx):
     ob = ctx.ob
     tc = ctx.tc
@@ -99,16 +145,7 @@ def values_rule(ctx):
             # calls f(<something derived from b>, flag) or <b>.for_each_value_mut(f)
             flags = []
             delegated = False
-            aliases = {b}
-            for _ in range(3):
-                for n in sir.walk(arm["body"]):
-                    if n.get("k") == "for" and sir.root_expr_name(n["e"]) in aliases:
-                        aliases.update(nm for nm, _p in sir.pat_bindings(n["pat"]))
-                    if n.get("k") in ("if", "while") and n["cond"].get("k") == "let" and sir.root_expr_name(n["cond"]["e"]) in aliases:
-                        aliases.update(nm for nm, _p in sir.pat_bindings(n["cond"]["pat"]))
-                    if n.get("k") == "match" and sir.root_expr_name(n["e"]) in aliases:
-                        for a in n["arms"]:
-                            aliases.update(nm for nm, _p in sir.pat_bindings(a["pat"]))
+            aliases = _derive_aliases(arm["body"], {b})
             for n in sir.walk(arm["body"]):
                 if n.get("k") == "call" and sir.expr_str(n["f"]) == cb and len(n["args"]) == 2 and sir.root_expr_name(n["args"][0]) in aliases:
                     flags.append(n["args"][1].get("v"))
@@ -148,13 +185,7 @@ def values_rule(ctx):
             if b is None:
                 obs.append(ob(key, False, ctx.where(g), "field `%s` can hold a Value but is ignored" % fl["name"]))
                 continue
-            aliases = {b}
-            for _ in range(2):
-                for n in sir.walk(g.body):
-                    if n.get("k") == "for" and sir.root_expr_name(n["e"]) in aliases:
-                        aliases.update(nm for nm, _p in sir.pat_bindings(n["pat"]))
-                    if n.get("k") == "if" and n["cond"].get("k") == "let" and sir.root_expr_name(n["cond"]["e"]) in aliases:
-                        aliases.update(nm for nm, _p in sir.pat_bindings(n["cond"]["pat"]))
+            aliases = _derive_aliases(g.body, {b})
             flags = [n["args"][1].get("v") for n in sir.walk(g.body) if n.get("k") == "call" and sir.expr_str(n["f"]) == cbn and len(n["args"]) == 2 and sir.root_expr_name(n["args"][0]) in aliases]
             obs.append(ob(key, bool(flags) and all(x is False for x in flags), ctx.where(g), "visited with disable_binding_map=%s" % flags))
     return obs
